@@ -103,6 +103,11 @@ func genC09All(t *rt.Tape, r *rt.Run) c09Model {
 		v.N = 0
 	}
 	v.U = uint(t.Draw(1<<30, "c09.u"))
+	if t.Bool(1, 6, "c09.ubig") {
+		// the far end of the unsigned range
+		v.U = []uint{1<<63 - 1, 1 << 63, 1<<64 - 1, 1<<63 + 12345}[t.Draw(4, "c09.ubigv")]
+		r.Probe("uint-above-int64-range")
+	}
 	if t.Bool(1, 4, "c09.uzero") {
 		v.U = 0
 	}
@@ -693,5 +698,5 @@ func init() {
 		},
 		Assumptions: []string{"'optional zero fields are omitted' is demanded for fields whose text form is empty when zero (strings, lists, versions, dependencies); the pinned test suite requires false booleans to be written as 'no', and zero integers are written as '0'", "architecture values are restricted to names whose String() form re-parses to the same value (wildcard and three-part names lose information in Arch.String, which belongs to the not-applicable properties C05/C06)"},
 	})
-	propProbes["C09"] = []string{"marshalled-repeatedly", "list-elements-independent", "several-known-fields-cleared", "required-empty-list", "multi-line-string-field", "paragraph-api", "missing-required-field", "unknown-fields-present", "known-field-cleared", "nested-plain-struct", "pointer-fields"}
+	propProbes["C09"] = []string{"uint-above-int64-range", "marshalled-repeatedly", "list-elements-independent", "several-known-fields-cleared", "required-empty-list", "multi-line-string-field", "paragraph-api", "missing-required-field", "unknown-fields-present", "known-field-cleared", "nested-plain-struct", "pointer-fields"}
 }
